@@ -711,6 +711,19 @@ def vary(rng, ty, v):
         except (ValueError, OverflowError):
             return tuple(v)
         return gen_value(rng, ty)
+    if ty == "per" and r < 0.35:
+        # the same length of time written with other components (1 tick = 100 ns, 1 ms = 10 000 ticks, 1 week = 7 days,
+        # ...): a DIFFERENT period (equality is component-wise), which a comparison of totals would call equal
+        u = list(v)
+        i, j, f = rng.choice([(8, 9, 100), (7, 8, 10_000), (6, 7, 1000), (5, 6, 60), (4, 5, 60), (3, 4, 24), (2, 3, 7), (0, 1, 12), (7, 9, 1_000_000)])
+        k = rng.choice([1, -1, 2, rng.randint(-50, 50) or 3])
+        u[i] -= k
+        u[j] += k * f
+        try:
+            build(ty, tuple(u))
+            return tuple(u)
+        except (ValueError, OverflowError):
+            return tuple(v)
     if ty in ("iv", "per", "zi", "fz", "div"):
         if r > 0.85:
             return gen_value(rng, ty)
